@@ -173,3 +173,6 @@ const (
 	FlagUnmapped  = 0x4
 	FlagSecondary = 0x100
 )
+
+// Expand returns the bases an IUPAC nucleotide code stands for.
+func Expand(c byte) []byte { return expand(c) }
